@@ -189,9 +189,57 @@ def d2_escape(chk: Check, cl: List[FuncInfo]) -> None:
                     {"facts": [repr(f) for f in facts_at(site.node)][:12]})
 
 
+def _segments_are_pairs(prog: Program) -> Optional[str]:
+    """Checked shape invariant: every segment the parser records is a
+    2-tuple (a literal pair, or the result of _expand_splats, all of whose
+    returns are pairs)."""
+    pf = prog.func("YAMLPath._parse_path")
+    es = prog.func("YAMLPath._expand_splats")
+    rets = [r for r in walk_local(es.node) if isinstance(r, ast.Return)]
+    if not rets or not all(isinstance(r.value, ast.Tuple) and
+                           len(r.value.elts) == 2 for r in rets):
+        return None
+    n = 0
+    for c in walk_local(pf.node):
+        if isinstance(c, ast.Call) and isinstance(c.func, ast.Attribute) and \
+                c.func.attr == "append" and c.args and \
+                isinstance(c.args[0], (ast.Tuple, ast.Call)):
+            a = c.args[0]
+            if isinstance(a, ast.Tuple):
+                if len(a.elts) != 2:
+                    return None
+                n += 1
+            elif src(a.func).endswith("_expand_splats"):
+                n += 1
+    if n < 8:
+        return None
+    return ("INV-SEGMENT-PAIR: all {} record sites of the parser append a "
+            "(type, attributes) pair".format(n))
+
+
 def _special(chk: Check, fi: FuncInfo, site: partial.Site) -> Optional[str]:
     """Idioms specific to this code base (each re-verified on every run)."""
     prog = chk.prog
+    # element [0] / [1] of a segment taken out of a parsed-segment queue
+    node = site.node
+    if site.kind == "subscript" and isinstance(node, ast.Subscript) and \
+            isinstance(node.slice, ast.Constant) and \
+            node.slice.value in (0, 1) and isinstance(node.value, ast.Name):
+        from sa.coords import reaching_def
+        from sa.interproc import aliases, subst
+        d = reaching_def(node.value.id, node)
+        if isinstance(d, ast.Call) and isinstance(d.func, ast.Attribute) and \
+                d.func.attr in ("pop", "popleft") and not d.args:
+            q = subst(d.func.value, aliases(fi))
+            if isinstance(q, ast.Name):
+                qd = reaching_def(q.id, node)
+                if qd is not None:
+                    q = qd
+            if isinstance(q, ast.Attribute) and \
+                    q.attr in ("escaped", "unescaped"):
+                inv = _segments_are_pairs(prog)
+                if inv:
+                    return inv
     # Enum[name.upper()] guarded by Enum.is_keyword(name)
     if site.kind == "subscript" and isinstance(site.container, ast.Name):
         q = prog.resolve_name(fi.module, site.container.id)
